@@ -15,12 +15,17 @@ class IterBoom(Exception):
     """Raised by the input iterable."""
 
 
-def work(d, run, i, sleep_ms, fail):
+def work(d, run, i, sleep_ms, fail, gate=None, gate_wait=30):
     # one file per execution: 'each task exactly once' is counted across processes
     name = "x-%d-%d-%d-%d" % (run, i, os.getpid(), time.monotonic_ns())
     os.close(os.open(os.path.join(d, name), os.O_CREAT | os.O_WRONLY))
     if sleep_ms:
         time.sleep(sleep_ms / 1000.0)
+    if gate:
+        # a task that does not complete before the driver releases it (or gate_wait seconds at most)
+        deadline = time.time() + gate_wait
+        while not os.path.exists(gate) and time.time() < deadline:
+            time.sleep(0.005)
     if fail:
         raise Boom(i)
     return ("r", run, i)
